@@ -121,7 +121,7 @@ CLAIMS = {
     "C11": dict(
         text="Proof for ApplicationException: BLength equals the bytes FastWrite/FastWriteNocopy produce, which are the documented field encodings; FastRead never panics, consumes exactly the struct extent "
              "given by the grammar (unknown or differently-typed fields of any type are skipped with their exact length) and succeeds iff the grammar accepts; FastMarshal/FastUnmarshal over the FastCodec interface contract.",
-        note="Base / BaseResp: BLength, FastWrite, FastWriteNocopy are proved equal and byte-exact for a nil or empty Extra map (Go maps are abstracted to their length); FastRead is proved for safety, extent on success and frame; which struct field a decoded value lands in (dispatch on field id and type) and decoded values are not specified. " + TRUST,
+        note="Base / BaseResp: BLength, FastWrite, FastWriteNocopy are proved equal and byte-exact for a nil or empty Extra map (Go maps are abstracted to their length); FastRead is proved for safety, extent on success and frame; a value is decoded into a struct member only when both field id and type are the member's (call-site assertions, exact 16/32-bit arithmetic), everything else is skipped; the decoded values themselves are those of the reader contracts per call, not restated as a postcondition of FastRead. " + TRUST,
         design="5 C11"),
     "C18": dict(
         text="Proof (loop-free, complete for all type ids, messages and prefixes): PrependError preserves the exception kind (transport / protocol / application; a foreign value exposing TypeId becomes an "
